@@ -114,9 +114,12 @@ class BaseScorer(object):
         give. This can be an estimate and not necessarily the actual maximum
         score possible, but it must never be less than the actual maximum
         score.
+
+        Matchers ask for this when they rewrite themselves even if the scorer
+        does not support block quality, so the default is "no limit".
         """
 
-        raise NotImplementedError(self.__class__.__name__)
+        return float("inf")
 
     def block_quality(self, matcher):
         """Returns the *maximum limit* on the possible score the matcher can
@@ -130,7 +133,7 @@ class BaseScorer(object):
         skip ahead to another block with better "quality".
         """
 
-        raise NotImplementedError(self.__class__.__name__)
+        return float("inf")
 
 
 # Scorer that just returns term weight
